@@ -49,6 +49,14 @@ The wrapper pattern (e.g. couchbase/doc_op.go CreateDocument l.21-47):
  doc_op.go:CreatePath               | ctx parameter; gocbcore Deadline = ctx.Deadline()      | err→ch                                            | ch cap 1                  | yes                  | yes
  rollback_mitigation.go:waitFirstConfig | context.Background() – NO ctx deadline; gocbcore deadline now+config.ConnectionTimeout | r.configSnapshot = result.Snapshot UNGUARDED (result is nil when err != nil); err→ch | ch cap 1 | yes | yes
 
+Scope column of the table (`Wrapper.scope`, go/ast fact `scope=`): where `NewAsyncOp(ctx)` and the
+`context.WithTimeout` that makes its ctx stand relative to the gocbcore request whose callback
+resolves the asyncOp.  14 sites issue ONE request straight in the function body (`single`).
+client.go:GetVBucketSeqNos issues one GET_ALL_VB_SEQNOS request per KV node × collection id, each in
+its own errgroup closure, and ctx, asyncOp and result channel are created INSIDE that closure
+(l.505-512): `per-request`.  `shared` (asyncOp or ctx created outside the closure, so that several
+requests signal one buffer-1 channel) is the shape refuted in Props/C20Multi.lean; no site has it.
+
 Callers of the ctx-parameter wrappers (where their deadline comes from):
 
  metadata.go  cbMetadata.Save  → UpsertXattrs, CreateDocument : errgroup.WithContext(WithTimeout(config.Checkpoint.Timeout)) – the ctx is also CANCELLED when a sibling vBucket write fails
@@ -305,6 +313,16 @@ inductive Store
   | capturedOnly                 -- captured variable only, err dropped
   deriving DecidableEq, Repr
 
+/-- where the asyncOp (and the ctx it watches) is created relative to the request it serves -/
+inductive Scope
+  | single        -- one request per call, issued in the function body
+  | perRequest    -- several requests per call (loop / closure), asyncOp + ctx created inside the same closure
+  | shared        -- several requests per call, asyncOp or ctx created outside: ONE signal channel for all
+  deriving DecidableEq, Repr
+
+def Scope.show : Scope → String
+  | .single => "single" | .perRequest => "per-request" | .shared => "shared"
+
 structure Wrapper where
   site : String                  -- "<file>:<func>"
   deadline : DeadlineSrc
@@ -317,6 +335,7 @@ structure Wrapper where
   readsAfterWait : Option Bool
   propagatesErr : Bool
   cbDerefsResult : Bool := false
+  scope : Scope := .single
   deriving DecidableEq, Repr
 
 def wrappers : List Wrapper := [
@@ -325,7 +344,8 @@ def wrappers : List Wrapper := [
     store := .capturedAndErrChan, buffered := some true, readsAfterWait := some true, propagatesErr := true },
   { site := "client.go:GetVBucketSeqNos", deadline := .const "time.Second*60",
     deadlineExpr := "time.Second*60", gocbDeadline := "",
-    store := .capturedAndErrChan, buffered := some true, readsAfterWait := some true, propagatesErr := true },
+    store := .capturedAndErrChan, buffered := some true, readsAfterWait := some true, propagatesErr := true,
+    scope := .perRequest },
   { site := "client.go:GetFailOverLogs", deadline := .const "time.Second*60",
     deadlineExpr := "time.Second*60", gocbDeadline := "",
     store := .capturedAndErrChan, buffered := some true, readsAfterWait := some true, propagatesErr := true },
@@ -394,8 +414,161 @@ def optBit : Option Bool → String
 
 /-- the line the go/ast fact pass of the harness prints for this row -/
 def Wrapper.factLine (w : Wrapper) : String :=
-  s!"buffered={optBit w.buffered} readsAfterWait={optBit w.readsAfterWait} propagatesErr={if w.propagatesErr then "1" else "0"} deadline={w.deadlineExpr}"
+  s!"buffered={optBit w.buffered} readsAfterWait={optBit w.readsAfterWait} propagatesErr={if w.propagatesErr then "1" else "0"} deadline={w.deadlineExpr} scope={w.scope.show}"
 
 def lookupSite (site : String) : Option Wrapper := wrappers.find? (·.site == site)
+
+/-! ## calls that issue SEVERAL requests (client.go GetVBucketSeqNos l.503-556)
+
+  eg := errgroup.Group{}                                   // l.484: no ctx – a failing worker cancels nobody
+  for i := 1; i <= numNodes; i++ { for j … {
+      eg.Go(func() error {                                 // one worker per request
+          ctx, cancel := context.WithTimeout(context.Background(), time.Second*60)   // OWN ctx
+          opm := NewAsyncOp(ctx)                           // OWN asyncOp (own signal channel)
+          ch := make(chan error, 1)                        // OWN result channel
+          op, err := s.dcpAgent.GetVbucketSeqnos(i, …, func(entries, err) { …; opm.Resolve(); ch <- err })
+          if err != nil { return err }
+          err = opm.Wait(op, err); if err != nil { return err }
+          return <-ch
+      })
+  } }
+  err = eg.Wait()                                          // l.550: all workers done; the FIRST non-nil error
+
+Per-request model (`MState`): `n` independent instances of the single-operation LTS above, one
+per request, plus errgroup's `errOnce` slot.  A global `tick` advances every instance's clock;
+`req i a` is a step of request `i` (of its worker, its callback, its ctx owner – or its clock
+alone: the contexts are created at slightly different moments).
+
+Shared variant (`SState`, the hoisted shape): ONE ctx and ONE asyncOp – one `signal` channel of
+capacity 1 – for all requests, while every request keeps its own result channel, worker and
+callback.  Its step is the single-operation `step` applied to the view (shared part, request i),
+so the two models differ in nothing but what is shared. -/
+
+/-- replace element `i` by its image (no-op when out of range) -/
+def modAt {α : Type} (f : α → α) : Nat → List α → List α
+  | _, [] => []
+  | 0, x :: xs => f x :: xs
+  | i + 1, x :: xs => x :: modAt f i xs
+
+inductive MAction
+  | tick                        -- one unit of time passes for every request
+  | req (i : Nat) (a : Action)  -- a step that concerns request `i` only
+  deriving DecidableEq, Repr
+
+structure MState where
+  ops : List State              -- request i ↦ its own asyncOp / ctx / result channel / worker / callback
+  firstErr : Option Final       -- errgroup.Group: `g.err`, written once (`errOnce`) by the first failing worker
+  deriving DecidableEq, Repr
+
+def minit (cfgs : List Cfg) : MState := { ops := cfgs.map init, firstErr := none }
+
+/-- errgroup.Go l.: `if err := f(); err != nil { g.errOnce.Do(func() { g.err = err }) }`, evaluated
+    at the step in which a worker's return value appears -/
+def errOnce (fe : Option Final) (before after : Option Final) : Option Final :=
+  match fe with
+  | some f => some f
+  | none =>
+    match before, after with
+    | none, some f => if f.isSuccess then none else some f
+    | _, _ => none
+
+def mstep (s : MState) : MAction → MState
+  | .tick => { s with ops := s.ops.map (stepD · .tick) }
+  | .req i a =>
+    match s.ops[i]? with
+    | none => s
+    | some o =>
+      { ops := modAt (fun _ => stepD o a) i s.ops,
+        firstErr := errOnce s.firstErr o.final (stepD o a).final }
+
+def mrun (s : MState) (acts : List MAction) : MState := acts.foldl mstep s
+
+/-- the part of a schedule that request `i` sees -/
+def proj (i : Nat) : List MAction → List Action
+  | [] => []
+  | .tick :: r => .tick :: proj i r
+  | .req j a :: r => if j = i then a :: proj i r else proj i r
+
+/-- what `GetVBucketSeqNos` returns: `(seqNos, nil)` or `(nil, eg.Wait())` -/
+inductive CallRes
+  | ok (data : List Nat)
+  | err (f : Final)
+  deriving DecidableEq, Repr
+
+def dataOf : Option Final → Nat
+  | some (.ok d) => d
+  | _ => 0
+
+/-- `eg.Wait()` returns once every worker has returned -/
+def callResult (s : MState) : Option CallRes :=
+  if s.ops.all (fun o => o.final.isSome) then
+    some (match s.firstErr with
+      | some f => .err f
+      | none => .ok (s.ops.map fun o => dataOf o.final))
+  else none
+
+/-- callbacks of the call that are stuck in a channel send in this state -/
+def blockedCallbacks (s : MState) : Nat :=
+  s.ops.countP fun o => match o.spc with
+    | .resolved _ => pushWouldBlock o
+    | _ => false
+
+/-! ### the shared variant -/
+
+/-- what stays private to a request when the asyncOp is shared -/
+structure SReq where
+  resultBuf : Option Outcome
+  stored : Option Outcome
+  wpc : WPc
+  spc : SPc
+  cancelCalls : Nat
+  final : Option Final
+  cbOutcomes : List Outcome
+  deriving DecidableEq, Repr
+
+structure SState where
+  shape : Shape
+  deadline : Option Nat          -- the ONE ctx
+  now : Nat
+  cancelled : Bool
+  signalFull : Bool              -- the ONE signal channel (cap 1) of the one asyncOp
+  reqs : List SReq
+  deriving DecidableEq, Repr
+
+def sreq0 : SReq :=
+  { resultBuf := none, stored := none, wpc := .notStarted, spc := .pending, cancelCalls := 0,
+    final := none, cbOutcomes := [] }
+
+def sinit (sh : Shape) (deadline : Option Nat) (n : Nat) : SState :=
+  { shape := sh, deadline := deadline, now := 0, cancelled := false, signalFull := false,
+    reqs := List.replicate n sreq0 }
+
+/-- request `r` of the shared state as a state of the single-operation LTS -/
+def sview (s : SState) (r : SReq) : State :=
+  { shape := s.shape, imm := none, deadline := s.deadline, now := s.now, cancelled := s.cancelled,
+    signalFull := s.signalFull, resultBuf := r.resultBuf, stored := r.stored, wpc := r.wpc, spc := r.spc,
+    cancelCalls := r.cancelCalls, final := r.final, cbOutcomes := r.cbOutcomes, crashed := false }
+
+def sreqOf (t : State) : SReq :=
+  { resultBuf := t.resultBuf, stored := t.stored, wpc := t.wpc, spc := t.spc, cancelCalls := t.cancelCalls,
+    final := t.final, cbOutcomes := t.cbOutcomes }
+
+/-- one step; `none` = not enabled (the goroutine concerned is blocked or not at such a point) -/
+def sstep (s : SState) : MAction → Option SState
+  | .tick => some { s with now := s.now + 1 }
+  | .req i a =>
+    match s.reqs[i]? with
+    | none => none
+    | some r =>
+      (step (sview s r) a).map fun t =>
+        { s with now := t.now, cancelled := t.cancelled, signalFull := t.signalFull,
+                 reqs := modAt (fun _ => sreqOf t) i s.reqs }
+
+def sstepD (s : SState) (a : MAction) : SState := (sstep s a).getD s
+
+def srun (s : SState) (acts : List MAction) : SState := acts.foldl sstepD s
+
+/-- `eg.Wait()` has returned -/
+def scallReturned (s : SState) : Bool := s.reqs.all fun r => r.final.isSome
 
 end GoDcp.AsyncOp
